@@ -80,7 +80,7 @@ def run(chk):
     chk.mc('MC_Dyn', 'MC_Dyn_protected.cfg', extra=['-dump', 'dot', dot], timeout=5000)
     from harness.drivers import dyn as _dyn
     gt = [dict(shard=chk.shard('dg_c09_%d' % i), dot=dot, part=i, nparts=tlcrun.NCPU,
-               limit=3000 if q else 14000, seed=chk.seed, first_tid=9000000 + i * 10000)
+               limit=chk.th(3000, 14000), seed=chk.seed, first_tid=9000000 + i * 10000)
           for i in range(tlcrun.NCPU)]
     sh_graph, gres = chk.generate(_dyn.dyn_graph_task, gt)
     os.remove(dot)
@@ -99,16 +99,16 @@ def run(chk):
     tmp = os.path.join(chk.dir, 'tmp')
     tasks = []
     tid = 2000000
-    nseeds = 2 if q else 40
+    nseeds = chk.th(2, 40)
     i = 0
     for kind in ('autoref', 'bdd'):
         for nvars, nheld in ((4, 4), (5, 5), (3, 3), (6, 6)):
-            for part in range(1 if q else 8):
+            for part in range(chk.th(1, 8)):
                 seeds = [chk.seed * 1000 + 17 * i + s for s in range(nseeds)]
                 tasks.append(dict(shard=chk.shard('dyn_%d' % i), tid0=tid,
                                   kind=kind, seeds=seeds, nvars=nvars,
                                   nheld=nheld, tmpdir=tmp,
-                                  kmax=24 if q else None))
+                                  kmax=chk.th(24, 60)))
                 tid += 10000
                 i += 1
     sh, res = chk.generate(dyn_task, tasks)
@@ -116,14 +116,14 @@ def run(chk):
     if chk.extra['runs_in_which_the_order_changed'] == 0:
         raise tlcrun.MachineryError('no triggered run changed the variable order (vacuous)')
     # natural triggering at lowered thresholds
-    sh += common.stage_histories(chk, ntraces=32 if q else 2000,
-                                 steps=80 if q else 200,
+    sh += common.stage_histories(chk, ntraces=chk.th(32, 2000),
+                                 steps=chk.th(80, 200),
                                  nvars_choices=[4, 5, 6], profile='dyn',
                                  tag='nat')
     # reordering must stay invisible LATER too: dd.autoref histories with natural triggering,
     # late declarations, and the order views read through the wrapper after every call
-    at = [dict(shard=chk.shard('au_c09_%d' % i), first_tid=9500000 + i * 100, ntraces=3 if q else 40,
-               seed=chk.seed, steps=70 if q else 120) for i in range(8)]
+    at = [dict(shard=chk.shard('au_c09_%d' % i), first_tid=9500000 + i * 100, ntraces=chk.th(3, 40),
+               seed=chk.seed, steps=chk.th(70, 120)) for i in range(8)]
     ash, _ = chk.generate(autoref_dyn_task, at)
     chk.own_clauses = tuple(chk.own_clauses) + ('decl.views',)
     chk.validate('TraceBDD', 'TraceBDD.cfg', sh + sh_graph + ash)
